@@ -10,6 +10,7 @@
 import Driver.C12
 import RelicVerif.Gen.PpExp
 import RelicVerif.Model.PpMiller
+import RelicVerif.Gen.PpLine
 
 namespace Driver.C04
 open Driver Relic.Spec.Tower Relic.Model.PpExp Relic.Model.PpMiller
@@ -284,10 +285,36 @@ def handleMap (pe : PEnv) (op : String) (args : List String) (got : String) : Op
     if pqs.length != n then none else judge v pqs n
   | _, _ => none
 
-/-- `lfn`: the line functions called directly (class C: no model of the projective lazy-reduction formulas).  Judged against the
-    specification: the updated running point is the doubled / added point of the curve law, and the sparse Fp12 element is the affine
-    chord / tangent through the points evaluated at the other argument UP TO A FACTOR IN A PROPER SUBFIELD of Fp12 (ρ^(p⁴) = ρ or
-    ρ^(p⁶) = ρ) — the factors the final exponentiation removes. -/
+/-- the tower arithmetic of a level as the field-operation record of the generated formulas -/
+def fopsOf (d : Desc) : Relic.Model.Formula.FOps (List Nat) where
+  zero := d.zero
+  one := d.one
+  add := d.add
+  sub := d.sub
+  mul := d.mul
+  neg := d.neg
+  sqr := d.sqr
+  dbl := fun a => d.add a a
+  hlv := fun a => a
+  inv := fun a => (d.inv? a).getD d.zero
+  ofNat := d.ofNat
+  isZero := d.isZero
+
+/-- the sparse element with the symbolic slots placed as the C code places them: l[i][j] is the Fp2 block 3·i + j of the twelve
+    coefficients; `zero`/`one` are exchanged for an M-type twist -/
+def placeSlots (mtype : Bool) (o : Relic.Gen.PpLine.LineOut (List Nat)) : List Nat :=
+  let z := if mtype then 1 else 0
+  let n := if mtype then 0 else 1
+  let blocks : List (Nat × List Nat) := [(3 * z + z, o.l00), (3 * z + n, o.l01), (3 * n + z, o.l10), (3 * n + n, o.l11)]
+  ((List.range 6).map fun k => match blocks.find? (fun b => b.1 == k) with
+    | some b => b.2
+    | none => [0, 0]).flatten
+
+/-- `lfn`: the line functions called directly.  MODEL column (class A): the definitions GENERATED from the C text (Gen/PpLine.lean,
+    general-b branch, lazy-reduction variant = basic variant as values) executed with the driver's Fp2 arithmetic on the operands in
+    the representation the library received; the slots placed by twist type; the updated point normalised.  SPEC column: the updated
+    point is the doubled / added point of the curve law and the sparse element is the affine chord / tangent evaluated at the other
+    argument UP TO A FACTOR IN A PROPER SUBFIELD of Fp12 (ρ^(p⁴) = ρ or ρ^(p⁶) = ρ) — the factors the final exponentiation removes. -/
 def handleLine (pe : PEnv) (op : String) (args : List String) (got : String) : Option Verdict :=
   let e := pe.env
   let d := e.base.d12
@@ -295,7 +322,22 @@ def handleLine (pe : PEnv) (op : String) (args : List String) (got : String) : O
   let c1 := e.base.c1
   let c2 := e.base.e2.c
   let tbl := e.tbl.get
-  let judge := fun (v : String) (affLine : List Nat) (expPt : String) =>
+  let o2 := fopsOf d2
+  let mtype := !(d.eq pe.u d.gen)
+  let optbTwo := (e.base.kv.lookup "optbtwo").getD "0" == "1"
+  let emb := fun (x : Nat) => d2.canon [x % d2.p, 0]
+  let fmtOut2 := fun (o : Relic.Gen.PpLine.LineOut (List Nat)) =>
+    d.fmt (placeSlots mtype o) ++ " " ++
+      (if d2.isZero o.z then "inf" else
+        let zi := (d2.inv? o.z).getD d2.zero
+        C11.fmtPoint d2 (some (d2.mul o.x zi, d2.mul o.y zi)))
+  let fmtOut1 := fun (o : Relic.Gen.PpLine.LineOut (List Nat)) =>
+    d.fmt (placeSlots mtype o) ++ " " ++
+      (if d2.isZero o.z then "inf" else
+        let zi := (d2.inv? o.z).getD d2.zero
+        C03.fmtPoint (some ((d2.canon (d2.mul o.x zi)).headD 0, (d2.canon (d2.mul o.y zi)).headD 0)))
+  let judge := fun (v : String) (model : String) (affLine : List Nat) (expPt : String) =>
+    let model := if optbTwo then got else model
     match got.splitOn " " with
     | [ls, pt] =>
       match d.parse? ls with
@@ -306,31 +348,48 @@ def handleLine (pe : PEnv) (op : String) (args : List String) (got : String) : O
         let inFp6 := d.eq (d.frobeniusViaPow tbl rho 6) rho
         let okL := !d.isZero l && !d.isZero affLine && (inFp4 || inFp6)
         let okP := pt == expPt
-        some { model := got, spec := [if okL && okP then got else if okP then "<line value = subfield factor x affine line>" else "<line> " ++ expPt],
-               tags := ["lfn." ++ v, "lfn.factor." ++ (if inFp2 then "fp2" else if inFp4 then "fp4" else if inFp6 then "fp6" else "none")] : Verdict }
-      | none => some { model := got, spec := ["<line> " ++ expPt], tags := ["lfn.parse"] }
-    | _ => some { model := got, spec := ["<line> " ++ expPt], tags := ["lfn.parse"] }
+        some { model := model, spec := [if okL && okP then got else if okP then "<line value = subfield factor x affine line>" else "<line> " ++ expPt],
+               tags := ["lfn." ++ v, "lfn.factor." ++ (if inFp2 then "fp2" else if inFp4 then "fp4" else if inFp6 then "fp6" else "none"),
+                        if mtype then "twist.M" else "twist.D", if optbTwo then "lfn.optb2-classC" else "lfn.model"] : Verdict }
+      | none => some { model := model, spec := ["<line> " ++ expPt], tags := ["lfn.parse"] }
+    | _ => some { model := model, spec := ["<line> " ++ expPt], tags := ["lfn.parse"] }
   match op, args with
-  | "lfn", ["dbl", t, p] => do
-    let t ← C11.parsePoint d2 t
-    let p ← C03.parsePoint p
+  | "lfn", ["dbl", ts, ps] => do
+    let t ← C11.parsePoint d2 ts
+    let tr ← C11.parseRep d2 ts
+    let p ← C03.parsePoint ps
+    let (xp, yp) ← p
     let tt := untwist d pe.u t
-    judge "dbl" (pe.e12.line tt tt (embed1 d p)).1 (C11.fmtPoint d2 (Relic.Spec.CurveX.add c2 t t))
-  | "lfn", ["add", t, q, p] => do
-    let t ← C11.parsePoint d2 t
-    let q ← C11.parsePoint d2 q
-    let p ← C03.parsePoint p
-    judge "add" (pe.e12.line (untwist d pe.u t) (untwist d pe.u q) (embed1 d p)).1 (C11.fmtPoint d2 (Relic.Spec.CurveX.add c2 t q))
-  | "lfn", ["dbll", t, q] => do
-    let t ← C03.parsePoint t
-    let q ← C11.parsePoint d2 q
+    -- the loop passes P precomputed as (3·x_P, −y_P)
+    let m := Relic.Gen.PpLine.pp_dbl_k12_projc_lazyr o2 c2.b tr.x tr.y tr.z (emb (3 * xp)) (emb (d2.p - yp % d2.p))
+    judge "dbl" (fmtOut2 m) (pe.e12.line tt tt (embed1 d p)).1 (C11.fmtPoint d2 (Relic.Spec.CurveX.add c2 t t))
+  | "lfn", ["add", ts, qs, ps] => do
+    let t ← C11.parsePoint d2 ts
+    let tr ← C11.parseRep d2 ts
+    let q ← C11.parsePoint d2 qs
+    let (xq, yq) ← q
+    let p ← C03.parsePoint ps
+    let (xp, yp) ← p
+    let m := Relic.Gen.PpLine.pp_add_k12_projc_lazyr o2 tr.x tr.y tr.z xq yq (emb xp) (emb yp)
+    judge "add" (fmtOut2 m) (pe.e12.line (untwist d pe.u t) (untwist d pe.u q) (embed1 d p)).1 (C11.fmtPoint d2 (Relic.Spec.CurveX.add c2 t q))
+  | "lfn", ["dbll", ts, qs] => do
+    let t ← C03.parsePoint ts
+    let tr ← C03.parseRep c1.p ts
+    let q ← C11.parsePoint d2 qs
+    let (xq, yq) ← q
     let tt := embed1 d t
-    judge "dbll" (pe.e12.line tt tt (untwist d pe.u q)).1 (C03.fmtPoint (Relic.Spec.Curve.add c1 t t))
-  | "lfn", ["addl", t, p, q] => do
-    let t ← C03.parsePoint t
-    let p ← C03.parsePoint p
-    let q ← C11.parsePoint d2 q
-    judge "addl" (pe.e12.line (embed1 d t) (embed1 d p) (untwist d pe.u q)).1 (C03.fmtPoint (Relic.Spec.Curve.add c1 t p))
+    -- the loop passes −Q
+    let m := Relic.Gen.PpLine.pp_dbl_lit_k12 o2 (emb c1.b) (emb tr.x) (emb tr.y) (emb tr.z) xq (d2.neg yq)
+    judge "dbll" (fmtOut1 m) (pe.e12.line tt tt (untwist d pe.u q)).1 (C03.fmtPoint (Relic.Spec.Curve.add c1 t t))
+  | "lfn", ["addl", ts, ps, qs] => do
+    let t ← C03.parsePoint ts
+    let tr ← C03.parseRep c1.p ts
+    let p ← C03.parsePoint ps
+    let (xp, yp) ← p
+    let q ← C11.parsePoint d2 qs
+    let (xq, yq) ← q
+    let m := Relic.Gen.PpLine.pp_add_lit_k12 o2 (emb tr.x) (emb tr.y) (emb tr.z) (emb xp) (emb yp) xq yq
+    judge "addl" (fmtOut1 m) (pe.e12.line (embed1 d t) (embed1 d p) (untwist d pe.u q)).1 (C03.fmtPoint (Relic.Spec.Curve.add c1 t p))
   | _, _ => none
 
 end Driver.C04
